@@ -990,7 +990,7 @@ Qed.
 
 Lemma step_str : forall fill inp st s p c,
   m_stop st = false -> is_arg s -> s_fmt s = FStr -> s_size s = 8 -> lenN (m_val st) = VAL_SIZE ->
-  arg_word inp s = Some p -> p < 2 ^ 64 -> p <> 0 -> assoc p (strs inp) = Some c ->
+  arg_word inp s = Some p -> p < 2 ^ 64 -> p <> 0 -> lookup_str (strs inp) p = Some c ->
   m_total st + 4 <= MAX_SIZE ->
   step fill inp false st s =
   let '(dst, len) := copy_loop (c ++ [0]) 0 (MAX_SIZE - m_total st) [] 0 in
@@ -1106,7 +1106,7 @@ Qed.
    characters and "..." (longer ones), quoted, raw or with the escapes of print_escaped_char *)
 Theorem str_arg_roundtrip : forall syms fill inp st s p c,
   m_stop st = false -> is_arg s -> s_fmt s = FStr -> s_size s = 8 -> lenN (m_val st) = VAL_SIZE ->
-  arg_word inp s = Some p -> p < 2 ^ 64 -> p <> 0 -> assoc p (strs inp) = Some c ->
+  arg_word inp s = Some p -> p < 2 ^ 64 -> p <> 0 -> lookup_str (strs inp) p = Some c ->
   nz c -> c <> [255; 255; 255; 255] ->
   m_total st + need s (AStr c) <= MAX_SIZE ->
   exists chunk,
@@ -1257,7 +1257,7 @@ Inductive covered (inp : inputs) : spec -> aval -> Prop :=
     (s_fmt s = FChar /\ (s_size s = 1 \/ s_size s = 2 \/ s_size s = 4 \/ s_size s = 8)) ->
     covered inp s (AInt w)
 | cov_str : forall s p c, s_fmt s = FStr -> s_size s = 8 -> arg_word inp s = Some p -> p < 2 ^ 64 -> p <> 0 ->
-    assoc p (strs inp) = Some c -> nz c -> c <> [255; 255; 255; 255] -> covered inp s (AStr c)
+    lookup_str (strs inp) p = Some c -> nz c -> c <> [255; 255; 255; 255] -> covered inp s (AStr c)
 | cov_bad : forall s p, s_fmt s = FStr -> s_size s = 8 -> arg_word inp s = Some p -> p < 2 ^ 64 -> p <> 0 ->
     readable inp p = false -> covered inp s (ABad p)
 | cov_null : forall s, s_fmt s = FStr -> s_size s = 8 -> arg_word inp s = Some 0 -> covered inp s ANull.
@@ -1394,7 +1394,7 @@ Proof.
   destruct l as [|x l']; [congruence|].
   destruct (has_float (x :: l')); [reflexivity|].
   rewrite fits_need_sum. assert (need_sum (x :: l') <=? MAX_SIZE = true) as -> by lia.
-  rewrite strip_paren_wrap. rewrite app_nil_r in Hm. exact Hm.
+  rewrite strip_paren_wrap. rewrite app_nil_r in Hm. rewrite Hm. reflexivity.
 Qed.
 
 (* non-vacuity of call_roundtrip's hypotheses: f(-5, "hi", <unreadable>, NULL) *)
@@ -1630,3 +1630,232 @@ Proof.
     exfalso. apply Hff. f_equal; [lia|]. f_equal; [lia|]. f_equal; [lia|]. f_equal; lia. }
   rewrite Hne. cbn [fst conv]. rewrite cstr_nz by exact Hnz. reflexivity.
 Qed.
+
+(* ------------------------------------------------------------------ the text inside replay's 1 KiB buffer *)
+Lemma flat_map_concat : forall {A B} (f : A -> list B) l, flat_map f l = concat (map f l).
+Proof. induction l; simpl; [reflexivity|]. rewrite IHl. reflexivity. Qed.
+
+(* the pieces are the text of show_one, cut where print_args / print_char are called *)
+Lemma show_pieces_concat : forall syms s data,
+  concat (fst (show_pieces syms s data)) = fst (show_one syms s data) /\
+  snd (show_pieces syms s data) = snd (show_one syms s data).
+Proof.
+  intros syms s data. unfold show_pieces, show_one.
+  destruct (s_fmt s) eqn:Ef; cbn [fst snd concat app]; rewrite ?app_nil_r; try (split; reflexivity).
+  - (* FStr *)
+    split; [|reflexivity].
+    destruct ((of_le (takeN 2 data) =? 4) && list_eqb (takeN (of_le (takeN 2 data)) (dropN 2 data)) [255; 255; 255; 255]).
+    + cbn. rewrite ?app_nil_r. reflexivity.
+    + unfold show_str.
+      destruct (after_high (cstr (takeN (of_le (takeN 2 data)) (dropN 2 data)))).
+      * rewrite flat_map_concat. cbn [app concat]. rewrite concat_app. cbn [concat]. rewrite app_nil_r. reflexivity.
+      * cbn. rewrite ?app_nil_r. reflexivity.
+  - (* FStdStr *)
+    split; [|reflexivity].
+    destruct ((of_le (takeN 2 data) =? 4) && list_eqb (takeN (of_le (takeN 2 data)) (dropN 2 data)) [255; 255; 255; 255]).
+    + cbn. reflexivity.
+    + unfold show_str.
+      destruct (after_high (cstr (takeN (of_le (takeN 2 data)) (dropN 2 data)))).
+      * rewrite flat_map_concat. cbn [app concat]. rewrite !concat_app. cbn [concat]. rewrite ?app_nil_r. rewrite <- ?app_assoc. reflexivity.
+      * cbn. rewrite ?app_nil_r. rewrite <- ?app_assoc. reflexivity.
+Qed.
+
+(* put never lets the text outgrow what the buffer can hold *)
+Definition text_inv (cap : N) (st : N * list N) : Prop := fst st + lenN (snd st) <= cap.
+
+Lemma put_inv : forall cap st p, text_inv cap st -> text_inv cap (put st p).
+Proof.
+  intros cap [room out] p H. unfold text_inv, put in *. cbn [fst snd] in *.
+  destruct (lenN p <=? room) eqn:E; cbn [fst snd]; [rewrite lenN_app; lia|lia].
+Qed.
+
+Lemma fold_put_inv : forall cap ps st, text_inv cap st -> text_inv cap (fold_left put ps st).
+Proof. induction ps; intros st H; simpl; [exact H|]. apply IHps. apply put_inv. exact H. Qed.
+
+Lemma show_loop_b_inv : forall cap syms is_ret specs data first st,
+  text_inv cap st -> text_inv cap (show_loop_b syms is_ret specs data first st).
+Proof.
+  intros cap syms is_ret specs. induction specs as [|s r IH]; intros data first st H; [exact H|].
+  cbn [show_loop_b]. destruct (negb (Bool.eqb is_ret (s_idx s =? 0))); [apply IH; exact H|].
+  destruct (show_pieces syms s data) as [ps adv].
+  set (st1 := if first then st else put st comma).
+  assert (H1 : text_inv cap st1) by (unfold st1; destruct first; [exact H|apply put_inv; exact H]).
+  pose proof (fold_put_inv cap ps st1 H1) as H2.
+  destruct ((fst (fold_left put ps st1) <=? 1) || is_ret); [exact H2|]. apply IH. exact H2.
+Qed.
+
+(* C09 text buffer: whatever the arguments, the text get_argspec_string builds stays inside char args[1024]
+   (1023 characters and the NUL) - the guarantee of the fix: commits 618ee80 / 0cdad2d *)
+Theorem text_within_buffer : forall syms specs data,
+  lenN (show_args_b syms specs data) <= TEXT_SIZE - 1 /\ lenN (show_ret_b syms specs data) <= TEXT_SIZE - 1.
+Proof.
+  intros syms specs data. unfold show_args_b, show_ret_b. destruct data as [d|]; [|split; vm_compute; discriminate].
+  assert (H0 : forall p, text_inv (TEXT_SIZE - 1) (put (TEXT_SIZE - 1, []) p)).
+  { intro p. apply put_inv. unfold text_inv. simpl. lia. }
+  split.
+  - pose proof (put_inv _ _ [41] (show_loop_b_inv _ syms false specs d true _ (H0 [40]))) as H.
+    unfold text_inv in H. lia.
+  - pose proof (show_loop_b_inv _ syms true specs d true _ (H0 [32; 61; 32])) as H.
+    unfold text_inv in H. rewrite lenN_app.
+    destruct (1 <=? fst (show_loop_b syms true specs d true (put (TEXT_SIZE - 1, []) [32; 61; 32]))) eqn:E;
+      [change (lenN [59]) with 1|change (lenN []) with 0]; lia.
+Qed.
+
+(* when everything fits, put just appends *)
+Lemma put_fits : forall room out p, lenN p <= room -> put (room, out) p = (room - lenN p, out ++ p).
+Proof. intros. unfold put. destruct (lenN p <=? room) eqn:E; [reflexivity|lia]. Qed.
+
+Lemma lenN_concat_cons : forall (a : list N) l, lenN (concat (a :: l)) = lenN a + lenN (concat l).
+Proof. intros. cbn [concat]. apply lenN_app. Qed.
+
+Lemma fold_put_fits : forall ps room out,
+  lenN (concat ps) <= room -> fold_left put ps (room, out) = (room - lenN (concat ps), out ++ concat ps).
+Proof.
+  induction ps as [|p r IH]; intros room out H.
+  - simpl. rewrite app_nil_r. f_equal. unfold lenN. simpl. lia.
+  - rewrite lenN_concat_cons in H. cbn [fold_left]. rewrite put_fits by lia.
+    rewrite IH by lia. rewrite lenN_concat_cons. cbn [concat]. rewrite <- app_assoc. f_equal. lia.
+Qed.
+
+Lemma show_loop_b_norel : forall syms is_ret specs data first st,
+  show_loop syms is_ret specs data first = [] -> first = false ->
+  show_loop_b syms is_ret specs data first st = st.
+Proof.
+  intros syms is_ret specs. induction specs as [|s r IH]; intros data first st H Hf; [reflexivity|].
+  cbn [show_loop show_loop_b] in *. destruct (negb (Bool.eqb is_ret (s_idx s =? 0))); [apply IH; assumption|].
+  subst first. destruct (show_one syms s data) as [txt adv]. cbn [comma app] in H. discriminate H.
+Qed.
+
+(* the bounded loop equals the unbounded one while the remaining text (and one more character) fits *)
+Lemma show_loop_b_fits : forall syms is_ret specs data first room out,
+  lenN (show_loop syms is_ret specs data first) + 1 <= room ->
+  show_loop_b syms is_ret specs data first (room, out) =
+  (room - lenN (show_loop syms is_ret specs data first), out ++ show_loop syms is_ret specs data first).
+Proof.
+  intros syms is_ret specs. induction specs as [|s r IH]; intros data first room out H.
+  - cbn. rewrite app_nil_r. f_equal. unfold lenN. simpl. lia.
+  - cbn [show_loop show_loop_b] in *.
+    destruct (negb (Bool.eqb is_ret (s_idx s =? 0))); [apply IH; exact H|].
+    destruct (show_pieces_concat syms s data) as (Hc & Ha).
+    destruct (show_pieces syms s data) as [ps adv'] eqn:Ep. destruct (show_one syms s data) as [txt adv] eqn:Eo.
+    cbn [fst snd] in Hc, Ha. subst adv'.
+    set (sep := if first then [] else comma) in *.
+    rewrite !lenN_app in H.
+    assert (Hs2 : lenN sep = if first then 0 else 2) by (unfold sep; destruct first; reflexivity).
+    assert (Hst1 : (if first then (room, out) else put (room, out) comma) = (room - lenN sep, out ++ sep)).
+    { rewrite Hs2. unfold sep. destruct first; cbv iota in *.
+      - rewrite app_nil_r. f_equal. lia.
+      - apply put_fits. change (lenN comma) with 2. lia. }
+    rewrite Hst1. rewrite fold_put_fits by (rewrite Hc; lia). rewrite Hc. cbn [fst].
+    destruct is_ret.
+    + rewrite orb_true_r. rewrite app_nil_r. rewrite <- app_assoc. f_equal.
+      rewrite !lenN_app. change (lenN []) with 0. lia.
+    + rewrite orb_false_r.
+      set (rest := show_loop syms false r (dropN adv data) false) in *.
+      destruct (room - lenN sep - lenN txt <=? 1) eqn:E1.
+      * (* nothing more may follow *)
+        assert (Hr : rest = []) by (destruct rest; [reflexivity|unfold lenN in *; simpl length in *; lia]).
+        rewrite Hr, app_nil_r. rewrite <- app_assoc. f_equal. rewrite !lenN_app. change (lenN []) with 0. lia.
+      * rewrite IH by (fold rest; lia). fold rest. rewrite <- !app_assoc. f_equal. rewrite !lenN_app. lia.
+Qed.
+
+(* C09 text buffer, fits: when the whole text fits the 1023 characters, replay prints exactly the unbounded text -
+   so the round-trip theorem (stated for show_args) holds for what replay really prints *)
+Theorem show_args_b_fits : forall syms specs data,
+  lenN (show_args syms specs data) <= TEXT_SIZE - 1 -> show_args_b syms specs data = show_args syms specs data.
+Proof.
+  intros syms specs data H. unfold show_args_b, show_args in *. destruct data as [d|]; [|reflexivity].
+  rewrite !lenN_app in H. change (lenN [40]) with 1 in H. change (lenN [41]) with 1 in H.
+  rewrite put_fits by (change (lenN [40]) with 1; unfold TEXT_SIZE; lia).
+  change (lenN [40]) with 1. cbn [app].
+  rewrite show_loop_b_fits by (unfold TEXT_SIZE in *; lia).
+  rewrite put_fits by (change (lenN [41]) with 1; unfold TEXT_SIZE in *; lia).
+  cbn [snd]. rewrite <- app_assoc. reflexivity.
+Qed.
+
+Corollary call_roundtrip_bounded : forall syms fill inp l,
+  l <> [] ->
+  Forall (fun p => is_arg (fst p) /\ covered inp (fst p) (snd p)) l ->
+  fits l = true ->
+  lenN (show_args syms (map fst l) (payload (run fill inp false (map fst l)))) <= TEXT_SIZE - 1 ->
+  ok_args l (show_args_b syms (map fst l) (payload (run fill inp false (map fst l)))) = true.
+Proof.
+  intros syms fill inp l Hne Hall Hfits Hlen. rewrite show_args_b_fits by exact Hlen.
+  apply call_roundtrip; assumption.
+Qed.
+
+(* the hypothesis of show_args_b_fits is needed: 10 strings of 97 newline characters (1980 characters with their
+   escapes) do not fit: replay stops inside the sixth string, at a whole "\\n" escape *)
+Definition long_specs : list spec := map (fun i => Sp (N.of_nat i) FStr 8 TStack (N.of_nat i)) (seq 1 10).
+Definition long_inp : inputs :=
+  {| regs := []; xmm := []; stk := repeat 4096 10; rets := []; strs := [(4096, repeat 10 97)]; wrds := [] |}.
+Lemma long_text_cut :
+  let p := payload (run 0 long_inp false long_specs) in
+  lenN (show_args [] long_specs p) = 1980 /\
+  lenN (show_args_b [] long_specs p) = 1022 /\
+  ok_args (map (fun s => (s, AStr (repeat 10 97))) long_specs) (show_args_b [] long_specs p) = true.
+Proof. vm_compute. repeat split; reflexivity. Qed.
+
+(* a struct { double a, b; } passed in xmm0/xmm1 is recorded whole (after fix df3e32a) *)
+Lemma struct_sse_whole :
+  let sp := {| s_idx := 1; s_fmt := FStruct; s_size := 16; s_type := TReg; s_u := 102%Z; s_regs := [101%Z; 102%Z]; s_name := [] |} in
+  let inp := {| regs := []; xmm := [0x3ff8000000000001; 0x4002000000000002]; stk := []; rets := []; strs := []; wrds := [] |} in
+  payload (run 0 inp false [sp]) = Some (le_bytes 8 0x3ff8000000000001 ++ le_bytes 8 0x4002000000000002).
+Proof. vm_compute. reflexivity. Qed.
+
+(* ------------------------------------------------------------------ only vetted pointers are dereferenced *)
+Lemma step_derefs_readable : forall inp is_ret st s,
+  Forall (fun a => readable inp a = true) (step_derefs inp is_ret st s).
+Proof.
+  intros inp is_ret st s. unfold step_derefs.
+  destruct (m_stop st); [constructor|].
+  destruct (negb (Bool.eqb is_ret (s_idx s =? 0))); [constructor|].
+  destruct (fmt_eqb (s_fmt s) FStruct && (MAX_SIZE <? m_total st + s_size s)); [constructor|].
+  match goal with |- context [match ?f with Some _ => _ | None => _ end] => destruct f as [val|] end; [|constructor].
+  destruct (is_strfmt (s_fmt s)); [|constructor].
+  destruct (MAX_SIZE <? m_total st + 4); [constructor|].
+  apply Forall_app. split.
+  - destruct (s_fmt s); try constructor.
+    destruct (assoc (of_le (takeN 8 val)) (wrds inp)) eqn:E; [|constructor].
+    constructor; [|constructor]. unfold readable. rewrite E.
+    destruct (lookup_str (strs inp) (of_le (takeN 8 val))); reflexivity.
+  - match goal with |- context [if ?p =? 0 then _ else _] => destruct (p =? 0); [constructor|];
+      destruct (readable inp p) eqn:E; [constructor; [exact E|constructor]|constructor] end.
+Qed.
+
+(* C09 vetting: whatever the specs and the register / stack contents, every pointer save_to_argbuf dereferences
+   lies inside a readable range [start, end) - the end address itself (one past the last byte) is not inside *)
+Theorem derefs_readable : forall fill inp is_ret specs,
+  Forall (fun a => readable inp a = true) (run_derefs fill inp is_ret specs).
+Proof.
+  intros fill inp is_ret specs. unfold run_derefs. generalize mst0.
+  induction specs as [|s r IH]; intro st; cbn [derefs_from]; [constructor|].
+  apply Forall_app. split; [apply step_derefs_readable|apply IH].
+Qed.
+
+(* the ranges are half-open: first byte and last byte (the NUL) are readable, one past the end is not *)
+Lemma lookup_half_open : forall a c,
+  lookup_str [(a, c)] a = Some c /\
+  lookup_str [(a, c)] (a + lenN c) = Some [] /\
+  lookup_str [(a, c)] (a + lenN c + 1) = None /\
+  (0 < a -> lookup_str [(a, c)] (a - 1) = None).
+Proof.
+  intros a c. cbn [lookup_str]. repeat split.
+  - assert ((a <=? a) && (a <? a + lenN c + 1) = true) as -> by lia.
+    replace (a - a) with 0 by lia. reflexivity.
+  - assert ((a <=? a + lenN c) && (a + lenN c <? a + lenN c + 1) = true) as -> by lia.
+    replace (a + lenN c - a) with (lenN c) by lia. unfold dropN, lenN. rewrite Nat2N.id, skipn_all. reflexivity.
+  - assert ((a <=? a + lenN c + 1) && (a + lenN c + 1 <? a + lenN c + 1) = false) as -> by lia. reflexivity.
+  - intro H. assert ((a <=? a - 1) && (a - 1 <? a + lenN c + 1) = false) as -> by lia. reflexivity.
+Qed.
+
+(* a string pointer that equals the END of a readable range is not dereferenced: it is shown as an address *)
+Lemma end_of_range_not_dereferenced :
+  let inp := {| regs := [4096 + 4; 0; 0; 0; 0; 0]; xmm := []; stk := []; rets := []; strs := [(4096, [69; 69; 69])]; wrds := [] |} in
+  run_derefs 0 inp false [spec_str 1] = [] /\
+  show_args_b [] [spec_str 1] (payload (run 0 inp false [spec_str 1])) = [40; 34] ++ bad_ptr_text 4100 ++ [34; 41] /\
+  (* one byte earlier it is the NUL of the string: dereferenced, shown as "" *)
+  let inp' := {| regs := [4096 + 3; 0; 0; 0; 0; 0]; xmm := []; stk := []; rets := []; strs := [(4096, [69; 69; 69])]; wrds := [] |} in
+  run_derefs 0 inp' false [spec_str 1] = [4099] /\
+  show_args_b [] [spec_str 1] (payload (run 0 inp' false [spec_str 1])) = [40; 34; 34; 41].
+Proof. vm_compute. repeat split; reflexivity. Qed.
